@@ -682,6 +682,14 @@ class SymQuot:
     def __rsub__(self, o):
         return o - self._exact()
 
+    def __mod__(self, o):
+        return self._exact() % o
+
+    def __floordiv__(self, o):
+        if isinstance(o, int) and not isinstance(o, bool) and o > 0:
+            return self.n // (self.d * o)
+        return self._exact() // o
+
     def _other(self, o):
         if isinstance(o, SymQuot):
             return self.n * o.d, o.n * self.d
